@@ -174,65 +174,65 @@ def treeOfIpfix (c : Config) (h : List Nat) (sets : List IpSet) : ETree :=
 /-! ### the exporter programs the hand-written `exportV9` / `exportIpfix` correspond to (G3Export proves it, and that the programs
     regenerated from the source are these) -/
 namespace G3
-def tfieldProg : List Emit := [.num ["field", "field_type_number"] 2, .num ["field", "field_length"] 2]
+def tfieldProg : List Emit := [.num ["b3", "field_type_number"] 2, .num ["b3", "field_length"] 2]
 
 def v9TemplatesProg : List Emit :=
-  [.each ["templates", "templates"] "template"
-     [.num ["template", "template_id"] 2, .num ["template", "field_count"] 2, .each ["template", "fields"] "field" tfieldProg],
-   .bytes ["templates", "padding"]]
+  [.each ["b1", "templates"] "b2"
+     [.num ["b2", "template_id"] 2, .num ["b2", "field_count"] 2, .each ["b2", "fields"] "b3" tfieldProg],
+   .bytes ["b1", "padding"]]
 
 def v9OptTemplatesProg : List Emit :=
-  [.each ["options_templates", "templates"] "template"
-     [.num ["template", "template_id"] 2, .num ["template", "options_scope_length"] 2, .num ["template", "options_length"] 2,
-      .each ["template", "scope_fields"] "field" tfieldProg, .each ["template", "option_fields"] "field" tfieldProg],
-   .bytes ["options_templates", "padding"]]
+  [.each ["b1", "templates"] "b2"
+     [.num ["b2", "template_id"] 2, .num ["b2", "options_scope_length"] 2, .num ["b2", "options_length"] 2,
+      .each ["b2", "scope_fields"] "b3" tfieldProg, .each ["b2", "option_fields"] "b3" tfieldProg],
+   .bytes ["b1", "padding"]]
 
 def v9DataProg : List Emit :=
-  [.each ["data", "fields"] "data_field" [.each ["data_field"] "field_value" [.value ["field_value"]]], .bytes ["data", "padding"]]
+  [.each ["b1", "fields"] "b2" [.each ["b2"] "b3" [.value ["b3"]]], .bytes ["b1", "padding"]]
 
 def v9OptDataProg : List Emit :=
-  [.each ["options_data", "scope_fields"] "scope_field" [.payload ["scope_field"]],
-   .each ["options_data", "options_fields"] "option_field" [.bytes ["option_field", "field_value"]],
-   .bytes ["options_data", "padding"]]
+  [.each ["b1", "scope_fields"] "b2" [.payload ["b2"]],
+   .each ["b1", "options_fields"] "b2" [.bytes ["b2", "field_value"]],
+   .bytes ["b1", "padding"]]
 
 def v9SetProg : List Emit :=
-  [.num ["set", "header", "flowset_id"] 2, .num ["set", "header", "length"] 2,
-   .whenVariant ["set", "body"] "Template" "templates" v9TemplatesProg,
-   .whenVariant ["set", "body"] "OptionsTemplate" "options_templates" v9OptTemplatesProg,
-   .whenVariant ["set", "body"] "Data" "data" v9DataProg,
-   .whenVariant ["set", "body"] "OptionsData" "options_data" v9OptDataProg]
+  [.num ["b0", "header", "flowset_id"] 2, .num ["b0", "header", "length"] 2,
+   .whenVariant ["b0", "body"] "Template" "b1" v9TemplatesProg,
+   .whenVariant ["b0", "body"] "OptionsTemplate" "b1" v9OptTemplatesProg,
+   .whenVariant ["b0", "body"] "Data" "b1" v9DataProg,
+   .whenVariant ["b0", "body"] "OptionsData" "b1" v9OptDataProg]
 
 def ipFieldProg : List Emit :=
-  [.num ["field", "field_type_number"] 2, .num ["field", "field_length"] 2,
-   .whenSome ["field", "enterprise_number"] "enterprise" [.num ["enterprise"] 4]]
+  [.num ["b2", "field_type_number"] 2, .num ["b2", "field_length"] 2,
+   .whenSome ["b2", "enterprise_number"] "b3" [.num ["b3"] 4]]
 
 def ipTemplateProg : List Emit :=
-  [.num ["template", "template_id"] 2, .num ["template", "field_count"] 2, .each ["template", "fields"] "field" ipFieldProg,
-   .bytes ["template", "padding"]]
+  [.num ["b1", "template_id"] 2, .num ["b1", "field_count"] 2, .each ["b1", "fields"] "b2" ipFieldProg,
+   .bytes ["b1", "padding"]]
 
 def ipOptTemplateProg : List Emit :=
-  [.num ["options_template", "template_id"] 2, .num ["options_template", "field_count"] 2, .num ["options_template", "scope_field_count"] 2,
-   .each ["options_template", "fields"] "field" ipFieldProg, .bytes ["options_template", "padding"]]
+  [.num ["b1", "template_id"] 2, .num ["b1", "field_count"] 2, .num ["b1", "scope_field_count"] 2,
+   .each ["b1", "fields"] "b2" ipFieldProg, .bytes ["b1", "padding"]]
 
 def ipDataProg : List Emit :=
-  [.each ["data", "fields"] "item" [.each ["item"] "v" [.value ["v"]]], .bytes ["data", "padding"]]
+  [.each ["b1", "fields"] "b2" [.each ["b2"] "b3" [.value ["b3"]]], .bytes ["b1", "padding"]]
 
 def ipSetProg : List Emit :=
-  [.num ["flow", "header", "header_id"] 2, .num ["flow", "header", "length"] 2,
-   .whenVariant ["flow", "body"] "Template" "template" ipTemplateProg,
-   .whenVariant ["flow", "body"] "OptionsTemplate" "options_template" ipOptTemplateProg,
-   .whenVariant ["flow", "body"] "Data" "data" ipDataProg,
-   .whenVariant ["flow", "body"] "OptionsData" "data" ipDataProg]
+  [.num ["b0", "header", "header_id"] 2, .num ["b0", "header", "length"] 2,
+   .whenVariant ["b0", "body"] "Template" "b1" ipTemplateProg,
+   .whenVariant ["b0", "body"] "OptionsTemplate" "b1" ipOptTemplateProg,
+   .whenVariant ["b0", "body"] "Data" "b1" ipDataProg,
+   .whenVariant ["b0", "body"] "OptionsData" "b1" ipDataProg]
 
 def v9StdProg : List Emit :=
   [.num ["self", "header", "version"] 2, .num ["self", "header", "count"] 2, .num ["self", "header", "sys_up_time"] 4,
    .num ["self", "header", "unix_secs"] 4, .num ["self", "header", "sequence_number"] 4, .num ["self", "header", "source_id"] 4,
-   .each ["self", "flowsets"] "set" v9SetProg]
+   .each ["self", "flowsets"] "b0" v9SetProg]
 
 def ipStdProg : List Emit :=
   [.num ["self", "header", "version"] 2, .num ["self", "header", "length"] 2, .num ["self", "header", "export_time"] 4,
    .num ["self", "header", "sequence_number"] 4, .num ["self", "header", "observation_domain_id"] 4,
-   .each ["self", "flowsets"] "flow" ipSetProg]
+   .each ["self", "flowsets"] "b0" ipSetProg]
 end G3
 
 end Netflow
